@@ -68,7 +68,8 @@ def run(ctx: Context) -> None:
     for q in sorted(model.relevant):
         ctx.functions.add(q)
     ctx.tables["C10.vocabulary"] = {"queues": {f"{o}.{a}": q for (o, a), q in model.queue_of.items()}, "inlined_functions": sorted(model.relevant),
-                                    "shared_attributes": ["sched._stopped", "sched._best_loss", "sched._best_param", "env._curr_best_loss"]}
+                                    "shared_attributes": sorted(f"{o}.{a}" for o, a in model.mutable), "session_flag": model.session_flag,
+                                    "initial_constants": {f"{o}.{a}": str(v[1]) for (o, a), v in sorted(model.init_heap.items())}}
     # the agent's generator must be (re)seeded before its thread exists: the seed cascade precedes the session
     from ..calib import CalibrateView
     from . import c05
